@@ -97,13 +97,16 @@ class UpdateReferences:
             lst[idx] = None
             found = True
             continue
-          if hasattr(oldref, "is_complement") and newref is not None and \
-              newref.is_compatible_complement(oldref.oriented_from,
+          if hasattr(oldref, "is_complement") and newref is not None:
+            if self.record_type == "P" and lst is self._refs.get("links"):
+              # same criterion as when the link is already there when the
+              # path is added (see Path._initialize_links): the orientation
+              # follows from the step of the path and the link alone
+              step = self._compute_required_links()[idx]
+              elem.orient = self._link_orient(newref, *step)
+            elif newref.is_compatible_complement(oldref.oriented_from,
                 oldref.oriented_to, oldref.overlap):
-            # same criterion as when the link is already there when the
-            # path is added (see Path._initialize_links); the overlap of a
-            # virtual link may be a placeholder
-            elem.orient = gfapy.invert(elem.orient)
+              elem.orient = gfapy.invert(elem.orient)
           elem.line = newref
           found = True
     if newref is None and found:
